@@ -258,6 +258,9 @@ func (n namedField) SetValue(opts *options, elem value, v value) Error {
 	if !ok {
 		return raiseExpectedObject(opts, elem)
 	}
+	if sub.c.fields == nil {
+		sub.c.fields = &fields{}
+	}
 
 	sub.c.fields.set(n.name, v)
 	v.SetContext(context{parent: elem, field: n.name})
@@ -272,6 +275,9 @@ func (i idxField) SetValue(opts *options, elem value, v value) Error {
 
 	if i.i < 0 || int64(i.i) > opts.maxIdx {
 		return raiseIndexOutOfBounds(opts, elem, i.i)
+	}
+	if sub.c.fields == nil {
+		sub.c.fields = &fields{}
 	}
 
 	sub.c.fields.setAt(i.i, elem, v)
